@@ -314,14 +314,24 @@ func udpClient(callers int, wrap bool, quick, thorough int) h.Scenario {
 
 // ---- socket server handler: several requests of one connection, completion order is the scheduler's ----
 
-func socketServer(nreq int, pool bool, quick, thorough int) h.Scenario {
+// With alias the service answers with the request slice itself (an IO-level pass-through): the response then
+// shares memory with whatever buffer the handler read the request into, and a handler that recycles that buffer
+// before the response has been written lets the next frame overwrite it.
+func socketServer(nreq int, pool bool, quick, thorough int, alias ...bool) h.Scenario {
+	identity := len(alias) > 0 && alias[0]
 	name := fmt.Sprintf("socket-server/requests=%d/pool=%v", nreq, pool)
+	if identity {
+		name += "/response-is-the-request-slice"
+	}
 	return h.Scenario{Name: name, Quick: quick, Thorough: thorough, Run: func(ch vs.Chooser, trace bool) (*vs.Sched, h.Outcome) {
 		conn := &vs.ScriptConn{Name: "sconn"}
 		s := vs.Run(ch, vs.Config{Trace: trace}, func() {
 			service := core.NewService()
 			service.Use(func(ctx context.Context, request []byte, next core.NextIOHandler) ([]byte, error) {
 				vs.Point("service-working")
+				if identity {
+					return request, nil
+				}
 				return append([]byte("re:"), request...), nil
 			})
 			hd := &socket.Handler{Service: service}
@@ -351,7 +361,11 @@ func socketServer(nreq int, pool bool, quick, thorough int) h.Scenario {
 			out = out[n:]
 			seen = append(seen, fmt.Sprintf("%d:%s", idx, body))
 			answered[idx]++
-			if want := fmt.Sprintf("re:request-%d", idx-100); string(body) != want {
+			want := fmt.Sprintf("re:request-%d", idx-100)
+			if identity {
+				want = want[3:]
+			}
+			if string(body) != want {
 				o.Viol = append(o.Viol, h.V{Sig: "server|response-under-wrong-identifier", What: fmt.Sprintf("%s: identifier %d carries %q, want %q", name, idx, body, want)})
 			}
 		}
@@ -376,6 +390,7 @@ func main() {
 		socketClient(2, false, 2, 3), socketClient(2, true, 2, 3), socketClient(3, true, 1, 2),
 		udpClient(2, false, 2, 3), udpClient(2, true, 2, 3), udpClient(3, true, 1, 2),
 		socketServer(2, false, 2, 3), socketServer(3, false, 1, 2), socketServer(2, true, 2, 3),
+		socketServer(2, false, 2, 3, true), socketServer(3, false, 1, 2, true), socketServer(2, true, 2, 3, true),
 		reverseScenario(2, 0, 2, 3), reverseScenario(2, time.Second, 2, 3),
 		wsClient(2, true, 2, 3), wsClient(3, true, 1, 2), wsServer(2, 2, 3), wsServer(3, 1, 2),
 	}
